@@ -18,7 +18,7 @@ pub struct Case {
 }
 
 fn strategy(style: TargetStyle, outer_absent: bool) -> impl Strategy<Value = Case> {
-	let cfg = GenCfg { ns_min: 2, ns_max: 4, p_missing: 12, style, max_classes: 7, p_nested: 60, outer_absent, weird_dollar: true, max_fields: 1, max_methods: 1, max_params: 1, ..GenCfg::default() };
+	let cfg = GenCfg { ns_min: 2, ns_max: 4, p_missing: 12, style, max_classes: 7, p_nested: 60, outer_absent, weird_dollar: true, max_fields: 1, max_methods: 1, max_params: 1, lone_surrogates: true, ..GenCfg::default() };
 	(mapset(cfg), any::<u8>(), order_seed()).prop_map(|(m, ns, order)| {
 		let ns = 1 + (ns as usize) % (m.ns.len() - 1);
 		Case { m, ns, order }
